@@ -477,6 +477,14 @@ func TestVerifDriver(t *testing.T) {
 		}
 		emit("slip10.path", M{"curve": curve, "seed": vInts(seed), "path": path})
 	}
+	// the same curve twice in a row with different seeds of one length (the caller's buffer is the same)
+	for _, curve := range []string{"secp256k1", "p256", "ed25519"} {
+		for q := 0; q < 3; q++ {
+			seed := make([]byte, 32)
+			r.Read(seed)
+			emit("slip10.path", M{"curve": curve, "seed": vInts(seed), "path": [][]int{{1, q}, {1, 7}}})
+		}
+	}
 	// parents whose public key has a short x coordinate (leading zero byte: one key in 256), found with the driver's own
 	// point arithmetic: the serialisation that enters the HMAC and the fingerprint must keep its full width
 	for _, curve := range []string{"secp256k1", "p256"} {
